@@ -239,8 +239,9 @@ class CONNECT(object):
         if self.username is not None:
              payload.extend(encodeString(self.username))
         if self.password is not None:
-            payload.extend(encode16Int(len(self.password)))
-            payload.extend(bytearray(self.password, encoding='ascii', errors='ignore'))
+            password = bytearray(self.password, encoding='utf-8')
+            payload.extend(encode16Int(len(password)))
+            payload.extend(password)
         # ---- Build the packet once all lengths are known ----
         header.extend(encodeLength(len(varHeader) + len(payload)))
         header.extend(varHeader)
